@@ -98,13 +98,34 @@ type followerReplication struct {
 // notifyAll is used to notify all the waiting verify futures
 // if the follower believes we are still the leader.
 func (s *followerReplication) notifyAll(leader bool) {
-	// Clear the waiting notifies minimizing lock time
+	// Clear the waiting notifies minimizing lock time, then submit our votes
+	voteAll(s.takeNotify(), leader)
+}
+
+// takeNotify removes and returns the verify futures registered so far. A
+// positive answer to a request may only be credited to futures that were
+// registered before that request was sent: an answer that was already on its
+// way when VerifyLeader was called says nothing about who is leader now.
+func (s *followerReplication) takeNotify() map[*verifyFuture]struct{} {
 	s.notifyLock.Lock()
 	n := s.notify
 	s.notify = make(map[*verifyFuture]struct{})
 	s.notifyLock.Unlock()
+	return n
+}
 
-	// Submit our votes
+// restoreNotify puts back verify futures taken for a request that failed, so
+// that the next request answers them.
+func (s *followerReplication) restoreNotify(n map[*verifyFuture]struct{}) {
+	s.notifyLock.Lock()
+	for v := range n {
+		s.notify[v] = struct{}{}
+	}
+	s.notifyLock.Unlock()
+}
+
+// voteAll submits a vote to each of the given verify futures.
+func voteAll(n map[*verifyFuture]struct{}, leader bool) {
 	for v := range n {
 		v.vote(leader)
 	}
@@ -372,9 +393,6 @@ func (r *Raft) sendLatestSnapshot(s *followerReplication) (bool, error) {
 
 		// Clear any failures
 		s.failures = 0
-
-		// Notify we are still leader
-		s.notifyAll(true)
 	} else {
 		s.failures++
 		r.logger.Warn("installSnapshot rejected to", "peer", peer.ID, "id", snapID)
@@ -408,8 +426,13 @@ func (r *Raft) heartbeat(s *followerReplication, stopCh chan struct{}) {
 		peer := s.peer
 		s.peerLock.RUnlock()
 
+		// Only the verify requests registered before this heartbeat goes out
+		// may count its answer.
+		pending := s.takeNotify()
+
 		start := time.Now()
 		if err := r.trans.AppendEntries(peer.ID, peer.Address, &req, &resp); err != nil {
+			s.restoreNotify(pending)
 			nextBackoffTime := cappedExponentialBackoff(failureWait, failures, maxFailureScale, r.config().HeartbeatTimeout/2)
 			r.logger.Error("failed to heartbeat to", "peer", peer.Address, "backoff time",
 				nextBackoffTime, "error", err)
@@ -434,7 +457,7 @@ func (r *Raft) heartbeat(s *followerReplication, stopCh chan struct{}) {
 				metrics.MeasureSince([]string{"raft", "replication", "heartbeat", string(peer.ID)}, start)
 			}
 
-			s.notifyAll(resp.Success)
+			voteAll(pending, resp.Success)
 		}
 	}
 }
@@ -659,7 +682,4 @@ func updateLastAppended(s *followerReplication, req *AppendEntriesRequest) {
 		atomic.StoreUint64(&s.nextIndex, last.Index+1)
 		s.commitment.match(s.peer.ID, last.Index)
 	}
-
-	// Notify still leader
-	s.notifyAll(true)
 }
